@@ -114,14 +114,25 @@ def decide_and_report(prop, tier, seed, runs, undecided, known, index, wall, ext
         if k['property'] == prop:
             known_ids[k['obligation']] = k
     failed_ids = {}
+    failed_sites = {}
     for f, r in failures:
         failed_ids.setdefault(f['id'], (f, r))
+        failed_sites.setdefault(f['id'], [])
+        if f.get('site') not in [x[0].get('site') for x in failed_sites[f['id']]]:
+            failed_sites[f['id']].append((f, r))
 
     violations = []
     known_hits = []
     for fid, (f, r) in sorted(failed_ids.items()):
         if fid in known_ids:
-            known_hits.append(known_ids[fid])
+            k = known_ids[fid]
+            # a finding that names its sites covers the clause failing *there*; the same clause failing at another exit or
+            # call site of the function is a different violation and is reported
+            other = [(f2, r2) for (f2, r2) in failed_sites[fid] if k.get('sites') and f2.get('site') not in k['sites']]
+            if len(other) < len(failed_sites[fid]) or not k.get('sites'):
+                known_hits.append(k)
+            for f2, r2 in other:
+                violations.append((dict(f2, id=f2['id'] + ' @ ' + (f2.get('site') or '?')), r2))
         else:
             violations.append((f, r))
 
